@@ -19,8 +19,21 @@ enum End {
     Drop,
     Discard,
     Overwrite,
+    /// dropped by a panic unwinding through the guard's owner: a drop like any other
+    DropUnwinding,
 }
-const ENDS: [End; 4] = [End::Stop, End::Drop, End::Discard, End::Overwrite];
+const ENDS: [End; 5] = [End::Stop, End::Drop, End::Discard, End::Overwrite, End::DropUnwinding];
+
+/// payload of the panics this harness raises on purpose (silenced in the panic hook)
+struct IntentionalPanic;
+
+fn drop_by_unwinding<T>(x: T) {
+    let r = std::panic::catch_unwind(std::panic::AssertUnwindSafe(move || {
+        let _held = x;
+        std::panic::panic_any(IntentionalPanic);
+    }));
+    assert!(r.is_err());
+}
 
 #[derive(Clone, Copy, Debug, PartialEq, Eq)]
 enum Op {
@@ -50,7 +63,7 @@ impl Model {
     fn end(&mut self, start: u64, e: End) -> u64 {
         let span = self.now_ms - start;
         match e {
-            End::Stop | End::Drop => self.total = Some(self.total.unwrap_or(0) + span),
+            End::Stop | End::Drop | End::DropUnwinding => self.total = Some(self.total.unwrap_or(0) + span),
             End::Discard => {}
             End::Overwrite => self.total = Some(span),
         }
@@ -86,6 +99,7 @@ fn run(ops: &[Op], rep: &Report) -> bool {
                         }
                     }
                     End::Drop => drop(g),
+                    End::DropUnwinding => drop_by_unwinding(g),
                     End::Discard => g.discard(),
                     End::Overwrite => g.overwrite(),
                 }
@@ -103,7 +117,7 @@ fn run(ops: &[Op], rep: &Report) -> bool {
                             stop_mismatch = Some((got, span));
                         }
                     }
-                    End::Drop => drop(g),
+                    End::Drop | End::DropUnwinding => drop(g),
                     End::Discard => g.discard(),
                     End::Overwrite => g.overwrite(),
                 }
@@ -271,7 +285,7 @@ fn enabled(live: usize, max_live: usize) -> Vec<Op> {
             v.push(Op::EndOwned(k, e));
         }
     }
-    for e in ENDS {
+    for e in [End::Stop, End::Drop, End::Discard, End::Overwrite] {
         v.push(Op::Borrowed(e));
     }
     v
@@ -505,6 +519,12 @@ fn timers_and_timestamps(args: &Args, rep: &Report) {
 fn main() {
     let args = Args::parse();
     let rep = Report::new("C18", &args);
+    let default_hook = std::panic::take_hook();
+    std::panic::set_hook(Box::new(move |info| {
+        if !info.payload().is::<IntentionalPanic>() {
+            default_hook(info);
+        }
+    }));
     if is_miri() || args.get_u64("tiny", 0) == 1 {
         rep.rule("owned guards of one stopwatch ended concurrently on separate threads, closes by reference racing with guards being stopped on another thread, and short random op sequences, under the interpreter/sanitizer");
         let mut rng = Rng::derive(args.seed, args.get_u64("variant", 0));
